@@ -698,6 +698,17 @@ Definition channel_users_g (w : world) (snap : nat) : res (list nat) :=
   l <- sl_get (w_heap w) (hc_users c) ;;
   Ok (filter_some (List.map (lookup_user_h w) l)).
 
+(* the same getters after notes/proposed-fixes/member-getter-live-object.diff: one Copy per
+   element, under the lock (not the current code; used by suite heap.members.copied) *)
+Definition user_channels_copied_g (w : world) (snap : nat) : res (heap * list nat) :=
+  u <- get_user (w_heap w) snap ;;
+  l <- sl_get (w_heap w) (hu_chans u) ;;
+  copy_all channel_copy (w_heap w) (filter_some (List.map (lookup_channel_h w) l)).
+Definition channel_users_copied_g (w : world) (snap : nat) : res (heap * list nat) :=
+  c <- get_chan (w_heap w) snap ;;
+  l <- sl_get (w_heap w) (hc_users c) ;;
+  copy_all user_copy (w_heap w) (filter_some (List.map (lookup_user_h w) l)).
+
 (* ---------- deep values ---------- *)
 
 Record vuser := mkVUser {
